@@ -15,8 +15,17 @@ structure KeyPat where
   offset : Int := 1
   deriving Repr, DecidableEq, Inhabited
 
+def digitChar (d : Nat) : Char := Char.ofNat (48 + d)
+
+/-- decimal digits of a natural number, most significant first -/
+def natDigits (n : Nat) : List Char :=
+  if n < 10 then [digitChar n] else natDigits (n / 10) ++ [digitChar (n % 10)]
+termination_by n
+decreasing_by omega
+
 /-- `"{:d}".format(z)` -/
-def intRepr (z : Int) : List Char := (toString z).toList
+def intRepr (z : Int) : List Char :=
+  if z < 0 then '-' :: natDigits z.natAbs else natDigits z.natAbs
 
 /-- `KeyPattern.get_widget_label(item_id)` -/
 def KeyPat.label (kp : KeyPat) (i : Nat) : List Char := kp.pre ++ intRepr ((i : Int) + kp.offset) ++ kp.post
